@@ -44,7 +44,8 @@ def run(ctx):
     ctx.rule("R11.4", "the address of rthread (or of its fields) is never stored in a non-thread-local object, "
              "libovni creates no threads, and no exported path calls a non-reentrant libc routine")
 
-    exported = [f for f in prog.fns_in(OV) if not f.static]
+    # the entry points of the library, plus the helpers of compat.c it exports to programs built with it
+    exported = [f for f in prog.fns_in(OV) if not f.static] + [f for f in prog.fns_in("src/compat.c") if not f.static]
     ctx.need(len(exported) >= 30, "only %d exported functions found in ovni.c" % len(exported))
     reach_keys = errflow.reachable_from(prog, reg, exported)
     reach = [prog.functions[k] for k in reach_keys]
